@@ -447,7 +447,7 @@ impl Check for C20 {
                 12 => Op::Drop,
                 13 => Op::Exit,
                 14..=15 => Op::Next,
-                16 => Op::Del(*rng.pick(&[1i64, 2, -1, -2, 7])),
+                16 => Op::Del(*rng.pick(&[1i64, 2, 3, -1, -2, -3, 7, 0])),
                 17 => Op::Clear,
                 _ => Op::ToggleTs,
             })
